@@ -194,46 +194,6 @@ Proof.
   - apply (circuit_energy_gap (circuit n m)). exact H.
 Qed.
 
-(* ---------- widths 2..6 by computation ---------- *)
-Definition small_sizes : list (nat * nat) :=
-  flat_map (fun n => map (fun m => (n, m)) [2; 3; 4; 5; 6]%nat) [2; 3; 4; 5; 6]%nat.
-
-Lemma small_sizes_computed :
-  forallb (fun nm => mult_ok_size (fst nm) (snd nm) && mult_attained_size (fst nm) (snd nm)) small_sizes = true.
-Proof. vm_compute. reflexivity. Qed.
-
-Lemma small_sizes_In n m : (2 <= n <= 6)%nat -> (2 <= m <= 6)%nat -> In (n, m) small_sizes.
-Proof.
-  intros Hn Hm. unfold small_sizes. apply in_flat_map. exists n. split.
-  - assert (En : (n = 2 \/ n = 3 \/ n = 4 \/ n = 5 \/ n = 6)%nat) by lia. cbn. intuition.
-  - apply in_map. assert (Em : (m = 2 \/ m = 3 \/ m = 4 \/ m = 5 \/ m = 6)%nat) by lia. cbn. intuition.
-Qed.
-
-(* multiplication_circuit(n, m), 2 <= n, m <= 6: the minimum over the internal wires is 0 exactly
-   when the product bits encode a*b, and at least 1 otherwise *)
-Theorem multiplication_circuit_small n m :
-  (2 <= n <= 6)%nat -> (2 <= m <= 6)%nat ->
-  (forall a : wassign, (0 <= circuit_energy (circuit n m) a)%Z) /\
-  (forall a : wassign, circuit_energy (circuit n m) a = 0%Z ->
-     bits_val (prod_bits n m a) = (bits_val (a_bits n a) * bits_val (b_bits m a))%Z) /\
-  (forall a : wassign,
-     bits_val (prod_bits n m a) <> (bits_val (a_bits n a) * bits_val (b_bits m a))%Z ->
-     (1 <= circuit_energy (circuit n m) a)%Z) /\
-  (forall abits bbits, length abits = n -> length bbits = m ->
-     exists a : wassign, a_bits n a = abits /\ b_bits m a = bbits /\ circuit_energy (circuit n m) a = 0%Z).
-Proof.
-  intros Hn Hm. pose proof small_sizes_computed as H. rewrite forallb_forall in H.
-  specialize (H (n, m) (small_sizes_In n m Hn Hm)). cbn [fst snd] in H.
-  apply andb_true_iff in H. destruct H as [Hok Hat].
-  split; [intros a; apply circuit_energy_nonneg|].
-  split; [|split].
-  - intros a He. apply (mult_arith n m Hok). apply (circuit_energy_gap (circuit n m) a). exact He.
-  - intros a Hne. destruct (all_sat (circuit n m) a) eqn:Es.
-    + exfalso. apply Hne. apply (mult_arith n m Hok a Es).
-    + apply (circuit_energy_gap (circuit n m) a). exact Es.
-  - apply (mult_attained n m Hat).
-Qed.
-
 (* the generator as it is, with a 1-bit second argument: an unconstrained carry gives a
    zero-energy assignment whose product bits are not a*b (open finding of C17) *)
 Definition witness_3x1 : wassign :=
